@@ -21,23 +21,43 @@ PROP = {
                       "observed status of every client after every barrier is checked to be a history of the model (all interleavings of "
                       "internal actions explored, extracted model, sample re-checked in the kernel); plus an independent oracle on every "
                       "recorded history (exclusion, durability, freshness by intervals, no request pending after all guards are released), "
-                      "also on un-barriered race cases with H1 poll deferral and on a multi-thread run of the F5 race.",
+                      "also on un-barriered race cases with H1 poll deferral, on CANCELLATION cases -- pending read()/write() futures are "
+                      "dropped where they stand (at a quiescent point in barriered 'cbar' cases, after a few yields under H1 deferral in race "
+                      "cases) while other clients hold guards or wait, and further requests follow; a cancelled request must be without effect: "
+                      "the same exclusion / durability / freshness / progress rules on the remaining events; barriered cases with cancelled WRITE "
+                      "requests only ('wbar') are in addition accepted against the model: the model has no cancel action, the acceptance search "
+                      "(RunRwLock.accept_g, not covered by C17_acceptance_sound) lets the cancelled request live on as a ghost client whose guard "
+                      "is dropped as soon as it is granted -- which is what the owner sees (new_value_tx dropped); cases with cancelled READ "
+                      "requests are oracle only -- and on a multi-thread run of the F5 race.",
         "level_note": "Trusted: Coq kernel (+vm_compute), extraction (ExtrOcamlBasic only) and mrun glue (cross-checked in-kernel on a sample), "
                       "harness, its transport and the paused-clock quiescence barrier. Assumed, not modelled: the Tokio RwLock is FIFO-fair "
                       "(modelled as a queue with a separate grant action), mpsc/oneshot/watch deliver in order and eventually; the remote "
                       "transport of requests, values, drop notifications and invalidations is abstracted to the nondeterministic delay of "
                       "the corresponding internal action (a remote drop notification is merged with the action that drops the copy); the "
-                      "owner lives for the whole run (no into_inner / Owner drop), pending lock futures are not cancelled, one outstanding "
-                      "request or guard per client, no connection failure. Progress of the code as it is: known finding F5 (open).",
-        "trivial_sig": r"^(bar|race):k\d+s?:r[01]w0c0d0",
+                      "owner lives for the whole run (no into_inner / Owner drop), one outstanding request or guard per client, no connection "
+                      "failure. The MODEL and the theorems have no cancellation of pending lock futures: a cancelled write request is represented in the "
+                      "acceptance search by a ghost client that drops its guard at once (a request cancelled while its send still waits for room in "
+                      "the request channel never reaches the real owner; its ghost is served when no copy of the generation exists, unobservable at "
+                      "a barrier); a cancelled read request (the future holds the cache write lock) is exercised on the real code only and judged "
+                      "by the history oracle. Progress of the code as it is: known finding F5 (open).",
+        "trivial_sig": r"^(bar|cbar|wbar|race):k\d+s?:r[01]w0c0d0",
         "rule": "cases from one PRNG (VERIF_SEED): 2-4 client actors over 1-4 caches (cache 0 = local clones, others = locks moved to a second "
                 "endpoint), 4-18 commands (acquire read / acquire write / release / commit fresh value / drop) mostly valid for the guessed "
-                "client status; 3 of 4 cases barriered and accepted against the model, every 4th an un-barriered race (yields, optional "
-                "barriers, H1 deferral seed) judged by the oracle only; every 16th case is the F5 witness script of Props/C17.v (readers on "
+                "client status; 3 of 4 cases barriered (5 of 8 without cancellation, 1 of 8 'wbar' with cancelled write requests: accepted against the model; "
+                "1 of 8 'cbar' with cancelled read and write requests: oracle only), every 4th an un-barriered race (yields, optional "
+                "barriers, H1 deferral seed) judged by the oracle only; cancellation cases (cbar = kind 3, wbar = kind 4, "
+                "half of the race cases): a coarse simulation of the request queue in the generator tells which "
+                "requests are probably pending, those are cancelled (command 6: the client's read()/write() future is dropped) 2 times out "
+                "of 3, holders of guards go on otherwise, new requests of any client follow; 1 in 12 releases is preceded by a cancellation "
+                "that comes too late (skipped); in wbar cases only write requests are cancelled (a cancel command on a pending read is skipped) and all clients use one cache "
+                "(local or remote: requests of different endpoints piled up behind the full request channel reach the owner in another order "
+                "than invoked, the model has one FIFO); corpus/C17/cancel.case "
+                "holds scripted cancellation cases (guard held / request served / request queued / send waiting when cancelled); every 16th case is the F5 witness script of Props/C17.v (readers on "
                 "the local or a remote cache); every 64th a multi-thread run of the F5 race; a case is non-trivial unless it has at most one "
                 "read and no write; distinct = distinct input",
         "assumptions": [
-            "owner alive for the whole case; pending lock futures are never cancelled; no connection fault",
+            "owner alive for the whole case; no connection fault",
+            "theorems: pending lock futures are never cancelled (cancelled write requests are compared with the model through ghost clients, cancelled read requests are judged by the oracle only)",
             "default chmux configuration (large receive buffers) on the remote connection",
         ],
     }
